@@ -64,7 +64,9 @@ def explore(chk, exe, h5, nconf, npoints, tag, all_points=False):
     rng = lib.Rng(chk.seed, "C14/" + tag)
     fails, mism, evals, cfgs, total_points = [], [], 0, [], 0
     for ci in range(nconf):
-        cfg = P.gen_config(rng, True)
+        cfg = P.gen_config(rng, True, allow_rfmod=True)
+        if ci % 2 == 1 and not cfg.get("rfmod"):
+            cfg["rfmod"] = [0.5, 45000.0, ci // 2 % 2]      # dynamic RF map: one /RFKicks row per executed step
         cfg["T"] = rng.choice([0.25, 0.5])
         cfg["N"] = rng.choice([16, 20])
         if cfg["outstep"] in (0, 100):
